@@ -31,6 +31,165 @@ fn header(did: &str) -> Value {
   json!({"alg":"EdDSA","kid":format!("{}#k", did),"typ":"JWT"})
 }
 
+/// A JSON object written member by member as TEXT: unlike a `serde_json::Value` it can carry the same key twice.
+#[derive(Clone, Default)]
+struct RawObj(Vec<(String, String)>);
+
+impl RawObj {
+  fn push(&mut self, k: &str, raw: impl Into<String>) {
+    self.0.push((k.to_string(), raw.into()));
+  }
+  fn text(&self) -> String {
+    let members: Vec<String> = self.0.iter().map(|(k, v)| format!("{}:{}", js(k), v)).collect();
+    format!("{{{}}}", members.join(","))
+  }
+  /// Replaces the single member `k` by the given occurrences (none, one or two of them). `apart` moves the first occurrence to the
+  /// front of the object and the last one to its end, otherwise they stay adjacent at the position of the original member
+  /// (or at the end if there was none).
+  fn set_occurrences(&mut self, k: &str, values: &[String], apart: bool) {
+    let pos = self.0.iter().position(|(n, _)| n == k);
+    let at = match pos {
+      Some(p) => {
+        self.0.remove(p);
+        p
+      }
+      None => self.0.len(),
+    };
+    if apart && values.len() == 2 {
+      self.0.insert(0, (k.to_string(), values[0].clone()));
+      self.0.push((k.to_string(), values[1].clone()));
+    } else {
+      for (i, v) in values.iter().enumerate() {
+        self.0.insert(at + i, (k.to_string(), v.clone()));
+      }
+    }
+  }
+}
+
+/// JSON string literal.
+fn js(s: &str) -> String {
+  Value::String(s.to_string()).to_string()
+}
+
+/// What the harness knows, by construction, about a numeric date written as JSON number text.
+#[derive(Clone, Debug)]
+enum NumKind {
+  /// The text denotes exactly this integer (possibly written with a fraction of zeros or an exponent).
+  Integral(i64),
+  /// The text denotes a non-integer; `trunc` is its integer part (towards zero), `in_years` tells whether the instant
+  /// itself still lies within years 0000-9999.
+  Fraction { trunc: i64, in_years: bool },
+  /// Far outside the i64 range resp. years 0000-9999, whatever the spelling.
+  Huge,
+}
+
+#[derive(Clone, Debug)]
+struct NumCase {
+  text: String,
+  kind: NumKind,
+}
+
+fn num(text: &str, kind: NumKind) -> NumCase {
+  NumCase { text: text.to_string(), kind }
+}
+
+/// Hand-written spellings (fractions are kept coarse enough to survive any binary floating point reading unchanged).
+fn num_table() -> Vec<NumCase> {
+  use NumKind::*;
+  vec![
+    num("1757778983.9", Fraction { trunc: 1_757_778_983, in_years: true }),
+    num("1262373804.75", Fraction { trunc: 1_262_373_804, in_years: true }),
+    num("1600000000.5e0", Fraction { trunc: 1_600_000_000, in_years: true }),
+    num("-62167219200.5", Fraction { trunc: T_MIN, in_years: false }),
+    num("-62167219200.25", Fraction { trunc: T_MIN, in_years: false }),
+    num("-62167219199.5", Fraction { trunc: T_MIN + 1, in_years: true }),
+    num("253402300799.5", Fraction { trunc: T_MAX, in_years: true }),
+    num("253402300800.5", Fraction { trunc: T_MAX + 1, in_years: false }),
+    num("253402300800.0", Integral(T_MAX + 1)),
+    num("-62167219201.0", Integral(T_MIN - 1)),
+    num("-62167219200.0", Integral(T_MIN)),
+    num("253402300799.0", Integral(T_MAX)),
+    num("1e9", Integral(1_000_000_000)),
+    num("1E9", Integral(1_000_000_000)),
+    num("1e+9", Integral(1_000_000_000)),
+    num("1.0", Integral(1)),
+    num("-0.0", Integral(0)),
+    num("1600000000.000", Integral(1_600_000_000)),
+    num("1.6e9", Integral(1_600_000_000)),
+    num("16e8", Integral(1_600_000_000)),
+    num("16000000000e-1", Integral(1_600_000_000)),
+    num("2.5e11", Integral(250_000_000_000)),
+    num("2.6e11", Integral(260_000_000_000)),
+    num("-7e10", Integral(-70_000_000_000)),
+    num("15e-1", Fraction { trunc: 1, in_years: true }),
+    num("0.5", Fraction { trunc: 0, in_years: true }),
+    num("-0.5", Fraction { trunc: 0, in_years: true }),
+    num("1e-7", Fraction { trunc: 0, in_years: true }),
+    num("1e30", Huge),
+    num("-1e30", Huge),
+    num("1e300", Huge),
+    num("-1e300", Huge),
+    num("1.5e19", Huge),
+    num("9223372036854775808", Huge),
+    num("18446744073709551615", Huge),
+    num("18446744073709551616", Huge),
+    num("-9223372036854775809", Huge),
+    num("123456789012345678901234567890", Huge),
+    // controls: plain integers
+    num("1600000000", Integral(1_600_000_000)),
+    num("0", Integral(0)),
+  ]
+}
+
+/// A random spelling: an in-range (or boundary) integer with a short non-zero fraction, or an integer in exponent form.
+fn num_random(rng: &mut Rng) -> NumCase {
+  let x = match rng.below(8) {
+    0 => T_MIN,
+    1 => T_MAX,
+    2 => T_MIN + 1 + rng.below(3) as i64,
+    3 => T_MAX - rng.below(3) as i64,
+    4 => rng.range_i64(-5, 5),
+    _ => rng.range_i64(T_MIN, T_MAX),
+  };
+  if rng.chance(2, 3) {
+    let digits = 1 + rng.usize(3);
+    let mut frac = String::new();
+    for i in 0..digits {
+      // last digit non-zero, so the value is not an integer
+      let d = if i + 1 == digits { 1 + rng.below(9) } else { rng.below(10) };
+      frac.push(char::from(b'0' + d as u8));
+    }
+    let neg = x < 0;
+    let text = format!("{}{}.{}", if neg { "-" } else { "" }, x.unsigned_abs(), frac);
+    // negative: the instant is x - 0.f, in range iff x > T_MIN; non-negative: x + 0.f, within year 9999 iff x <= T_MAX
+    let in_years = if neg { x > T_MIN } else { x <= T_MAX };
+    NumCase { text, kind: NumKind::Fraction { trunc: x, in_years } }
+  } else {
+    let k = 1 + rng.below(6) as u32;
+    let p = 10i64.pow(k);
+    let m = x / p;
+    let v = m * p;
+    let text = match rng.below(3) {
+      0 => format!("{}e{}", m, k),
+      1 => format!("{}E+{}", m, k),
+      _ => format!("{}.0e{}", m, k),
+    };
+    NumCase { text, kind: NumKind::Integral(v) }
+  }
+}
+
+fn in_range(t: i64) -> bool {
+  (T_MIN..=T_MAX).contains(&t)
+}
+
+/// What came back from the presentation validator.
+struct PresBack {
+  id: Option<String>,
+  holder: String,
+  exp: Option<i64>,
+  issuance: Option<i64>,
+}
+
 struct Cx {
   rep: Report,
 }
@@ -56,6 +215,467 @@ impl Cx {
         .map(|d| (d.credential, d.custom_claims))
         .map_err(|e| format!("{} / {:?}", e, e))
     })
+  }
+
+  /// Back-conversion of a presentation claims JSON TEXT (taken literally, so it may repeat keys or spell numbers freely).
+  fn back_presentation(&mut self, holder: &str, claims_text: &str) -> Result<Result<PresBack, String>, vh::panicmon::PanicRec> {
+    let token = format!(
+      "{}.{}.{}",
+      vh::b64::url_encode(header(holder).to_string().as_bytes()),
+      vh::b64::url_encode(claims_text.as_bytes()),
+      vh::b64::url_encode(&[0u8; 64])
+    );
+    let doc = doc_for(holder);
+    let vopts = JwtPresentationValidationOptions::new()
+      .earliest_expiry_date(Timestamp::from_unix(T_MIN).unwrap())
+      .latest_issuance_date(Timestamp::from_unix(T_MAX).unwrap());
+    catch(|| {
+      JwtPresentationValidator::with_signature_verifier(liar())
+        .validate::<_, Jwt, Object>(&Jwt::new(token), &doc, &vopts)
+        .map(|d| PresBack {
+          id: d.presentation.id.as_ref().map(|u| u.to_string()),
+          holder: d.presentation.holder.to_string(),
+          exp: d.expiration_date.map(|t| t.to_unix()),
+          issuance: d.issuance_date.map(|t| t.to_unix()),
+        })
+        .map_err(|e| format!("{}", e))
+    })
+  }
+
+  /// Credential claims sets written as raw text in which ONE member occurs twice in the same object (a registered claim at the top
+  /// level, or a repeated value inside vc / vc.credentialSubject). Model: every occurrence is a member of the claims set, so the set
+  /// must be rejected as soon as one occurrence of a registered claim disagrees with one occurrence of the value repeated inside vc,
+  /// or one occurrence of a numeric date lies outside years 0000-9999 - whichever occurrence a parser would let win.
+  /// Two equal occurrences may be refused or accepted (then with that value). One occurrence alone is the control.
+  fn dup_credential(&mut self, rng: &mut Rng, idx: u64) {
+    self.rep.eval();
+    let issuer = "did:example:issuer-t";
+    let base_t = 1_600_000_000i64 + rng.below(1000) as i64;
+    let exp_t = base_t + 1000;
+    let good_id = "https://example.edu/credentials/1";
+    let good_sub = "did:example:subject-t";
+    let mut d = idx;
+    let mut digit = |n: u64| {
+      let r = d % n;
+      d /= n;
+      r
+    };
+    const TARGETS: [&str; 11] =
+      ["exp", "nbf", "iat", "sub", "jti", "iss", "vc.id", "vc.issuer", "vc.issuanceDate", "vc.expirationDate", "vc.credentialSubject.id"];
+    let target = TARGETS[digit(11) as usize];
+    let pattern = ["bad-good", "good-bad", "good-good", "single"][digit(4) as usize];
+    let apart = digit(2) == 1;
+    let counterpart = digit(2) == 1;
+    let date_target = matches!(target, "exp" | "nbf" | "iat");
+
+    let mut top = RawObj::default();
+    top.push("iss", js(issuer));
+    top.push(if target == "iat" { "iat" } else { "nbf" }, base_t.to_string());
+    top.push("exp", exp_t.to_string());
+    top.push("jti", js(good_id));
+    top.push("sub", js(good_sub));
+    let mut vc = RawObj::default();
+    vc.push("@context", js(credgen::BASE_CONTEXT));
+    vc.push("type", js("VerifiableCredential"));
+    let mut subject = RawObj::default();
+    subject.push("degree", js("BSc"));
+
+    // the good and the bad value of the duplicated member, as JSON text
+    let mut why = "disagreement";
+    let (good, bad): (String, String) = match target {
+      "exp" | "nbf" | "iat" => {
+        let g = if target == "exp" { exp_t } else { base_t };
+        // without the value repeated inside vc only an out-of-range number is wrong; with it a different in-range number is wrong too
+        let b = if counterpart && rng.bool() {
+          g + *rng.pick(&[1i64, -1, 86_400, -1_000_000])
+        } else {
+          why = "date-out-of-range";
+          *rng.pick(&[T_MIN - 1, T_MAX + 1, i64::MIN, i64::MAX, T_MAX + 86_400])
+        };
+        (g.to_string(), b.to_string())
+      }
+      "sub" | "vc.credentialSubject.id" => (js(good_sub), js("did:example:subject-other")),
+      "jti" | "vc.id" => (js(good_id), js("https://example.edu/credentials/2")),
+      "iss" | "vc.issuer" => (js(issuer), js("did:example:someone-else")),
+      "vc.issuanceDate" => (js(&rfc3339(base_t)), js(&rfc3339(base_t + 1))),
+      _ => (js(&rfc3339(exp_t)), js(&rfc3339(exp_t - 1))),
+    };
+    // the other side of the pair registered claim / value repeated inside vc
+    if target.starts_with("vc.") || counterpart {
+      match target {
+        "exp" => vc.push("expirationDate", js(&rfc3339(exp_t))),
+        "nbf" | "iat" => vc.push("issuanceDate", js(&rfc3339(base_t))),
+        "sub" => subject.push("id", js(good_sub)),
+        "jti" => vc.push("id", js(good_id)),
+        "iss" => vc.push("issuer", js(issuer)),
+        _ => {}
+      }
+    }
+    let occurrences: Vec<String> = match pattern {
+      "bad-good" => vec![bad.clone(), good.clone()],
+      "good-bad" => vec![good.clone(), bad.clone()],
+      "good-good" => vec![good.clone(), good.clone()],
+      _ => vec![good.clone()],
+    };
+    let has_bad = pattern == "bad-good" || pattern == "good-bad";
+    // a disagreeing occurrence needs its counterpart to disagree with; an out-of-range date is wrong by itself
+    let judged = target.starts_with("vc.") || counterpart || (date_target && why == "date-out-of-range");
+    let must_reject = has_bad && judged;
+    let ambiguous = has_bad && !judged; // two different registered claims and nothing inside vc to compare with: not judged
+    match target {
+      "vc.credentialSubject.id" => subject.set_occurrences("id", &occurrences, apart),
+      t if t.starts_with("vc.") => vc.set_occurrences(&t[3..], &occurrences, apart),
+      t => top.set_occurrences(t, &occurrences, apart),
+    }
+    // for a vc target the counterpart digit moves vc in front of the registered claims instead
+    let vc_first = target.starts_with("vc.") && counterpart;
+    if rng.bool() {
+      vc.push("credentialSubject", subject.text());
+    } else {
+      vc.0.insert(0, ("credentialSubject".to_string(), subject.text()));
+    }
+    if vc_first {
+      top.0.insert(0, ("vc".to_string(), vc.text()));
+    } else {
+      // not after a trailing second occurrence when the occurrences are meant to be apart: keep vc in the middle then
+      let at = if apart && occurrences.len() == 2 && !target.starts_with("vc.") { top.0.len() - 1 } else { top.0.len() };
+      top.0.insert(at, ("vc".to_string(), vc.text()));
+    }
+    let text = top.text();
+    let case = json!({"claims_text": text, "duplicated": target, "pattern": pattern, "apart": apart, "counterpart_present": counterpart, "must_reject": must_reject, "why": why});
+    self.rep.distinct("nontrivial", &format!("dup|{}|{}|{}|{}|{}", target, pattern, apart, counterpart, why));
+    self.rep.inc("raw_dup_cases");
+    match self.back_credential(issuer, &text) {
+      Err(p) => self.viol(&format!("verify_signature-panic@{}", p.file_only()), format!("{} at {}", p.msg, p.loc()), &case),
+      Ok(Err(_)) => {
+        if pattern == "single" {
+          self.rep.inc("raw_control_rejected");
+        } else {
+          self.rep.inc("raw_dup_rejected");
+        }
+      }
+      Ok(Ok((cred, _))) => {
+        if pattern == "single" {
+          self.rep.inc("raw_control_accepted");
+        } else {
+          self.rep.inc("raw_dup_accepted");
+        }
+        if must_reject {
+          return self.viol(
+            &format!("duplicated-member-silently-resolved:credential:{}", why),
+            format!("claims set with two {} members ({}) accepted: {}", target, pattern, text),
+            &case,
+          );
+        }
+        // accepted with one value, or twice the same value: that value must be the one carried
+        let got_sub = cred.credential_subject.iter().next().and_then(|s| s.id.as_ref().map(|u| u.to_string()));
+        let mut wrong: Vec<String> = Vec::new();
+        if !(ambiguous && target == "jti") && cred.id.as_ref().map(|u| u.to_string()).as_deref() != Some(good_id) {
+          wrong.push(format!("id={:?}", cred.id));
+        }
+        if !(ambiguous && target == "sub") && got_sub.as_deref() != Some(good_sub) {
+          wrong.push(format!("subject={:?}", got_sub));
+        }
+        if !(ambiguous && target == "iss") && cred.issuer.url().as_str() != issuer {
+          wrong.push(format!("issuer={}", cred.issuer.url()));
+        }
+        if !(ambiguous && (target == "nbf" || target == "iat")) && cred.issuance_date.to_unix() != base_t {
+          wrong.push(format!("issuance={}", cred.issuance_date));
+        }
+        if !(ambiguous && target == "exp") && cred.expiration_date.map(|t| t.to_unix()) != Some(exp_t) {
+          wrong.push(format!("expiration={:?}", cred.expiration_date));
+        }
+        if !wrong.is_empty() {
+          self.viol("raw-claims-accepted-with-other-values:credential", format!("accepted {} but reconstructed {}", text, wrong.join(",")), &case);
+        }
+      }
+    }
+  }
+
+  /// The same for presentations: jti / iss against vp.id / vp.holder, and the numeric dates exp / nbf / iat.
+  fn dup_presentation(&mut self, rng: &mut Rng, idx: u64) {
+    self.rep.eval();
+    let holder = "did:example:holder-t";
+    let good_id = "https://example.edu/presentations/1";
+    let base_t = 1_600_000_000i64 + rng.below(1000) as i64;
+    let exp_t = base_t + 1000;
+    let mut d = idx;
+    let mut digit = |n: u64| {
+      let r = d % n;
+      d /= n;
+      r
+    };
+    const TARGETS: [&str; 8] = ["exp", "nbf", "iat", "nbf+iat", "jti", "iss", "vp.id", "vp.holder"];
+    let target = TARGETS[digit(8) as usize];
+    let pattern = ["bad-good", "good-bad", "good-good", "single"][digit(4) as usize];
+    let apart = digit(2) == 1;
+    let counterpart = digit(2) == 1;
+    let member = match target {
+      "nbf+iat" => "nbf",
+      "vp.id" => "id",
+      "vp.holder" => "holder",
+      t => t,
+    };
+    let date_target = matches!(member, "exp" | "nbf" | "iat");
+    let mut top = RawObj::default();
+    top.push("iss", js(holder));
+    top.push("jti", js(good_id));
+    top.push("exp", exp_t.to_string());
+    match target {
+      "iat" => top.push("iat", base_t.to_string()),
+      "nbf+iat" => {
+        // nbf is the claim the conversion uses; a valid iat next to it rescues nothing
+        top.push("iat", (base_t - 500).to_string());
+        top.push("nbf", base_t.to_string());
+      }
+      _ => top.push("nbf", base_t.to_string()),
+    }
+    let mut vp = RawObj::default();
+    vp.push("@context", js(credgen::BASE_CONTEXT));
+    vp.push("type", js("VerifiablePresentation"));
+    vp.push("verifiableCredential", "[]");
+    let mut why = "disagreement";
+    let (good, bad): (String, String) = match member {
+      "exp" | "nbf" | "iat" => {
+        why = "date-out-of-range";
+        let g = if member == "exp" { exp_t } else { base_t };
+        (g.to_string(), rng.pick(&[T_MIN - 1, T_MAX + 1, i64::MIN, i64::MAX, T_MAX + 86_400]).to_string())
+      }
+      "jti" | "id" => (js(good_id), js("https://example.edu/presentations/2")),
+      _ => (js(holder), js("did:example:holder-other")),
+    };
+    if target.starts_with("vp.") || counterpart {
+      match target {
+        "jti" => vp.push("id", js(good_id)),
+        "iss" => vp.push("holder", js(holder)),
+        _ => {}
+      }
+    }
+    let occurrences: Vec<String> = match pattern {
+      "bad-good" => vec![bad.clone(), good.clone()],
+      "good-bad" => vec![good.clone(), bad.clone()],
+      "good-good" => vec![good.clone(), good.clone()],
+      _ => vec![good.clone()],
+    };
+    let has_bad = pattern == "bad-good" || pattern == "good-bad";
+    let judged = target.starts_with("vp.") || date_target || counterpart;
+    let must_reject = has_bad && judged;
+    let ambiguous = has_bad && !judged;
+    if target.starts_with("vp.") {
+      vp.set_occurrences(member, &occurrences, apart);
+    } else {
+      top.set_occurrences(member, &occurrences, apart);
+    }
+    let vp_first = (target.starts_with("vp.") || date_target) && counterpart;
+    if vp_first {
+      top.0.insert(0, ("vp".to_string(), vp.text()));
+    } else {
+      let at = if apart && occurrences.len() == 2 && !target.starts_with("vp.") { top.0.len() - 1 } else { top.0.len() };
+      top.0.insert(at, ("vp".to_string(), vp.text()));
+    }
+    let text = top.text();
+    let case = json!({"claims_text": text, "duplicated": target, "pattern": pattern, "apart": apart, "counterpart_or_vp_first": counterpart, "must_reject": must_reject, "why": why});
+    self.rep.distinct("nontrivial", &format!("pdup|{}|{}|{}|{}", target, pattern, apart, counterpart));
+    self.rep.inc("raw_dup_cases");
+    match self.back_presentation(holder, &text) {
+      Err(p) => self.viol(&format!("presentation-validate-panic@{}", p.file_only()), format!("{} at {}", p.msg, p.loc()), &case),
+      Ok(Err(_)) => {
+        if pattern == "single" {
+          self.rep.inc("raw_control_rejected");
+        } else {
+          self.rep.inc("raw_dup_rejected");
+        }
+      }
+      Ok(Ok(back)) => {
+        if pattern == "single" {
+          self.rep.inc("raw_control_accepted");
+        } else {
+          self.rep.inc("raw_dup_accepted");
+        }
+        // the issuance claims are written in every one of these claims sets: an accepted presentation without issuance date has lost them
+        if back.issuance.is_none() {
+          return self.viol(
+            "presentation-issuance-claim-silently-dropped",
+            format!("claims set accepted with NO issuance date although it carries nbf/iat ({} {}): {}", target, pattern, text),
+            &case,
+          );
+        }
+        if must_reject {
+          return self.viol(
+            &format!("duplicated-member-silently-resolved:presentation:{}", why),
+            format!("claims set with two {} members ({}) accepted: {}", target, pattern, text),
+            &case,
+          );
+        }
+        let mut wrong: Vec<String> = Vec::new();
+        if !(ambiguous && target == "jti") && back.id.as_deref() != Some(good_id) {
+          wrong.push(format!("id={:?}", back.id));
+        }
+        if !(ambiguous && target == "iss") && back.holder != holder {
+          wrong.push(format!("holder={}", back.holder));
+        }
+        if back.issuance != Some(base_t) {
+          wrong.push(format!("issuance={:?}", back.issuance));
+        }
+        if back.exp != Some(exp_t) {
+          wrong.push(format!("expiration={:?}", back.exp));
+        }
+        if !wrong.is_empty() {
+          self.viol("raw-claims-accepted-with-other-values:presentation", format!("accepted {} but reconstructed {}", text, wrong.join(",")), &case);
+        }
+      }
+    }
+  }
+
+  /// Numeric date claims spelled as JSON numbers with a fraction or an exponent. Model: a number that denotes an integer within years
+  /// 0000-9999 may be refused or accepted (then as exactly that second); a number outside the range must be refused whatever its
+  /// spelling; a non-integer cannot be carried by a whole-second date, so accepting it means it was silently resolved to some other
+  /// instant (it then also disagrees with any vc.issuanceDate / vc.expirationDate, which are whole seconds).
+  fn nonint_credential(&mut self, rng: &mut Rng, idx: u64, nc: &NumCase) {
+    self.rep.eval();
+    let issuer = "did:example:issuer-t";
+    let base_t = 1_500_000_000i64;
+    const SLOTS: [&str; 6] = ["exp", "nbf", "iat", "exp+vc.expirationDate", "nbf+vc.issuanceDate", "nbf+iat"];
+    let slot = SLOTS[(idx % 6) as usize];
+    // the whole-second date a truncating / rounding reader would come up with, clamped into the representable range for the vc text
+    let near = match nc.kind {
+      NumKind::Integral(v) if in_range(v) => v,
+      NumKind::Fraction { trunc, .. } if in_range(trunc) => {
+        if rng.chance(1, 4) && in_range(trunc + 1) {
+          trunc + 1
+        } else {
+          trunc
+        }
+      }
+      NumKind::Fraction { trunc, .. } => trunc.clamp(T_MIN, T_MAX),
+      _ => base_t,
+    };
+    let mut top = RawObj::default();
+    top.push("iss", js(issuer));
+    let mut vc = RawObj::default();
+    vc.push("@context", js(credgen::BASE_CONTEXT));
+    vc.push("type", js("VerifiableCredential"));
+    vc.push("credentialSubject", "{\"degree\":\"BSc\"}");
+    let on_exp = slot.starts_with("exp");
+    match slot {
+      "exp" | "exp+vc.expirationDate" => {
+        top.push("nbf", T_MIN.to_string());
+        top.push("exp", nc.text.clone());
+        if slot != "exp" {
+          vc.push("expirationDate", js(&rfc3339(near)));
+        }
+      }
+      "nbf" | "nbf+vc.issuanceDate" | "nbf+iat" => {
+        if slot == "nbf+iat" {
+          top.push("iat", base_t.to_string());
+        }
+        top.push("nbf", nc.text.clone());
+        if slot == "nbf+vc.issuanceDate" {
+          vc.push("issuanceDate", js(&rfc3339(near)));
+        }
+      }
+      _ => top.push("iat", nc.text.clone()),
+    }
+    if rng.bool() {
+      top.push("vc", vc.text());
+    } else {
+      top.0.insert(0, ("vc".to_string(), vc.text()));
+    }
+    let with_vc_date = slot.contains("+vc.");
+    let text = top.text();
+    let case = json!({"claims_text": text, "number": nc.text, "known_about_number": format!("{:?}", nc.kind), "slot": slot});
+    let kind_class = match nc.kind {
+      NumKind::Integral(v) => format!("int:{}", in_range(v)),
+      NumKind::Fraction { in_years, .. } => format!("frac:{}", in_years),
+      NumKind::Huge => "huge".into(),
+    };
+    let spelling = if nc.text.contains(['e', 'E']) { "exp" } else if nc.text.contains('.') { "point" } else { "plain" };
+    self.rep.distinct("nontrivial", &format!("num|{}|{}|{}|neg:{}", slot, kind_class, spelling, nc.text.starts_with('-')));
+    self.rep.inc("numeric_spelling_cases");
+    match self.back_credential(issuer, &text) {
+      Err(p) => self.viol(&format!("verify_signature-panic@{}", p.file_only()), format!("{} at {}", p.msg, p.loc()), &case),
+      Ok(Err(_)) => self.rep.inc("numeric_spelling_rejected"),
+      Ok(Ok((cred, _))) => {
+        self.rep.inc("numeric_spelling_accepted");
+        let got = if on_exp { cred.expiration_date.map(|t| t.to_unix()) } else { Some(cred.issuance_date.to_unix()) };
+        match nc.kind {
+          NumKind::Integral(v) if in_range(v) => {
+            if got != Some(v) {
+              self.viol("numeric-date-altered:credential", format!("{} = {} accepted as {:?}", slot, nc.text, got), &case);
+            }
+          }
+          NumKind::Integral(_) | NumKind::Huge => {
+            self.viol("numeric-date-out-of-range-accepted:credential", format!("{} = {} accepted as {:?}", slot, nc.text, got), &case)
+          }
+          NumKind::Fraction { in_years, .. } => {
+            let k = if !in_years { "out-of-range" } else if with_vc_date { "disagrees-with-vc" } else { "truncated" };
+            self.viol(&format!("non-integer-date-accepted:credential:{}", k), format!("{} = {} accepted as {:?}", slot, nc.text, got), &case)
+          }
+        }
+      }
+    }
+  }
+
+  fn nonint_presentation(&mut self, rng: &mut Rng, idx: u64, nc: &NumCase) {
+    self.rep.eval();
+    let holder = "did:example:holder-t";
+    let base_t = 1_500_000_000i64;
+    const SLOTS: [&str; 4] = ["exp", "nbf", "iat", "nbf+iat"];
+    let slot = SLOTS[(idx % 4) as usize];
+    let mut top = RawObj::default();
+    top.push("iss", js(holder));
+    match slot {
+      "exp" => top.push("exp", nc.text.clone()),
+      "nbf" => top.push("nbf", nc.text.clone()),
+      "iat" => top.push("iat", nc.text.clone()),
+      _ => {
+        top.push("iat", base_t.to_string());
+        top.push("nbf", nc.text.clone());
+      }
+    }
+    let vp = format!("{{\"@context\":{},\"type\":\"VerifiablePresentation\",\"verifiableCredential\":[]}}", js(credgen::BASE_CONTEXT));
+    if rng.bool() {
+      top.push("vp", vp);
+    } else {
+      top.0.insert(0, ("vp".to_string(), vp));
+    }
+    let text = top.text();
+    let case = json!({"claims_text": text, "number": nc.text, "known_about_number": format!("{:?}", nc.kind), "slot": slot});
+    let kind_class = match nc.kind {
+      NumKind::Integral(v) => format!("int:{}", in_range(v)),
+      NumKind::Fraction { in_years, .. } => format!("frac:{}", in_years),
+      NumKind::Huge => "huge".into(),
+    };
+    let spelling = if nc.text.contains(['e', 'E']) { "exp" } else if nc.text.contains('.') { "point" } else { "plain" };
+    self.rep.distinct("nontrivial", &format!("pnum|{}|{}|{}|neg:{}", slot, kind_class, spelling, nc.text.starts_with('-')));
+    self.rep.inc("numeric_spelling_cases");
+    match self.back_presentation(holder, &text) {
+      Err(p) => self.viol(&format!("presentation-validate-panic@{}", p.file_only()), format!("{} at {}", p.msg, p.loc()), &case),
+      Ok(Err(_)) => self.rep.inc("numeric_spelling_rejected"),
+      Ok(Ok(back)) => {
+        self.rep.inc("numeric_spelling_accepted");
+        let got = if slot == "exp" { back.exp } else { back.issuance };
+        if got.is_none() {
+          // accepted, and the claim is simply gone
+          let sig = if slot == "exp" { "presentation-expiry-claim-silently-dropped" } else { "presentation-issuance-claim-silently-dropped" };
+          return self.viol(sig, format!("{} = {} ({:?}) accepted and the presentation came back WITHOUT that date: {}", slot, nc.text, nc.kind, text), &case);
+        }
+        match nc.kind {
+          NumKind::Integral(v) if in_range(v) => {
+            if got != Some(v) {
+              self.viol("numeric-date-altered:presentation", format!("{} = {} accepted as {:?}", slot, nc.text, got), &case);
+            }
+          }
+          NumKind::Integral(_) | NumKind::Huge => {
+            self.viol("numeric-date-out-of-range-accepted:presentation", format!("{} = {} accepted as {:?}", slot, nc.text, got), &case)
+          }
+          NumKind::Fraction { in_years, .. } => {
+            let k = if !in_years { "out-of-range" } else { "truncated" };
+            self.viol(&format!("non-integer-date-accepted:presentation:{}", k), format!("{} = {} accepted as {:?}", slot, nc.text, got), &case)
+          }
+        }
+      }
+    }
   }
 
   fn credential_roundtrip(&mut self, rng: &mut Rng) {
@@ -706,8 +1326,11 @@ fn main() {
     "credentials/presentations generated over every optional field (issuer URL/DID/object, subject id, id, expiry, status, schema, refresh \
      service, terms of use, evidence, nonTransferable, extra properties, proof, custom claims, one-or-many forms) -> serialize_jwt -> claims \
      shape checks -> back-conversion through the validators with an always-Ok verifier; tampered claim sets enumerated over each duplicated \
-     member absent/equal/different x registered claim present/absent x iat/nbf combinations x numeric dates at the range ends. \
-     distinct = field-presence class of the generated value resp. the tampering vector",
+     member absent/equal/different x registered claim present/absent x iat/nbf combinations x numeric dates at the range ends; \
+     claims sets written as raw text in which one member (registered claim, or value repeated inside vc/vp/credentialSubject) occurs twice \
+     (bad-good / good-bad / equal / single control x adjacent or apart x counterpart present) and numeric dates spelled with a fraction or \
+     an exponent (table + random spellings x exp/nbf/iat slots x vc date present), for credentials and presentations. \
+     distinct = field-presence class of the generated value resp. the tampering vector resp. (slot, kind of number, spelling)",
   );
   let mut rng = args.rng(7);
   let n = (if args.thorough { 12_000_000u64 } else { 6_000 } * scale / 1000 / args.nshards).max(30);
@@ -734,6 +1357,55 @@ fn main() {
           cx.tampered_presentation(&mut rng, idx);
         }
       }
+    }
+  }
+  // Claims sets written as raw TEXT (own stream, so the workloads above are unchanged): one member occurring twice in one object
+  // (11 targets x 4 patterns x adjacent/apart x counterpart = 176 credential vectors, 8 x 4 x 2 x 2 = 128 presentation vectors), and
+  // numeric dates spelled with a fraction or an exponent (hand-written table x every slot, plus random spellings).
+  let mut rng2 = args.rng(8);
+  let small = scale < 1000;
+  let reps2 = if args.thorough { 300 } else { 4 };
+  let mut k2 = 0u64;
+  for rep in 0..reps2 {
+    if small && rep > 0 {
+      break;
+    }
+    for idx in 0..176u64 {
+      k2 += 1;
+      if args.mine(k2) && (!small || k2 % 3 == 0) {
+        cx.dup_credential(&mut rng2, idx);
+      }
+    }
+    for idx in 0..128u64 {
+      k2 += 1;
+      if args.mine(k2) && (!small || k2 % 3 == 0) {
+        cx.dup_presentation(&mut rng2, idx);
+      }
+    }
+  }
+  let table = num_table();
+  for (i, nc) in table.iter().enumerate() {
+    for slot in 0..6u64 {
+      k2 += 1;
+      if args.mine(k2) && (!small || (i as u64 + slot) % 5 == 0) {
+        cx.nonint_credential(&mut rng2, slot, nc);
+      }
+    }
+    for slot in 0..4u64 {
+      k2 += 1;
+      if args.mine(k2) && (!small || (i as u64 + slot) % 5 == 0) {
+        cx.nonint_presentation(&mut rng2, slot, nc);
+      }
+    }
+  }
+  let nrand = (if args.thorough { 400_000u64 } else { 2_400 } * scale / 1000 / args.nshards).max(10);
+  for i in 0..nrand {
+    let nc = num_random(&mut rng2);
+    if i % 5 < 3 {
+      let slot = rng2.below(6);
+      cx.nonint_credential(&mut rng2, slot, &nc);
+    } else {
+      cx.nonint_presentation(&mut rng2, i / 5, &nc);
     }
   }
   cx.rep.finish();
